@@ -610,6 +610,14 @@ fn main() {
             let mut ofile = None;
             if o["ofile"].as_bool().unwrap() {
                 let p = format!("{}/out-{}.dlt", dir, j);
+                // every other output path exists already and is LARGER than anything the run can write: a complete copy of the
+                // first input file (valid messages) followed by 64 KiB of filler - "the DLT file it writes" holds nothing of it
+                if j % 2 == 1 {
+                    let mut old = std::fs::read(format!("{}/f0.dlt", dir)).unwrap_or_default();
+                    old.extend(std::iter::repeat(old.clone()).take(3).flatten().collect::<Vec<u8>>());
+                    old.extend(std::iter::repeat(0xa5u8).take(64 * 1024));
+                    std::fs::write(&p, old).unwrap();
+                }
                 args.push("-o".into());
                 args.push(p.clone());
                 ofile = Some(p);
